@@ -240,6 +240,7 @@ func (c *Ctx) fresh(t types.Type, hint string, facts *[]Term) Val {
 				// reference-like: non-negative
 				*facts = append(*facts, app(SBool, "<=", Term{"0", SInt}, x))
 			}
+			c.noteUnsigned(x, t)
 		}
 		return Scalar{x, t}
 	case *types.Pointer:
@@ -369,11 +370,9 @@ func (c *Ctx) sliceWF(s Slice) []Term {
 		c.ile(z, s.Off), c.ile(z, s.Len), c.ile(s.Len, s.Cap),
 		Implies(Eq(s.Ref, Term{"0", SInt}), And(Eq(s.Len, z), Eq(s.Cap, z), Eq(s.Off, z))),
 	}
-	if c.mode == ModeBV {
-		// keep off+cap from wrapping: objects are smaller than 2^62
-		lim := IntLit(bvSort(64), pow2(60))
-		fs = append(fs, c.ile(s.Off, lim), c.ile(s.Cap, lim))
-	}
+	// objects are smaller than 2^60 elements (keeps off+cap from wrapping in bv mode, and lengths inside int in int mode)
+	lim := IntLit(c.idxSort(), pow2(60))
+	fs = append(fs, c.ile(s.Off, lim), c.ile(s.Cap, lim))
 	return fs
 }
 
@@ -629,6 +628,7 @@ func (c *Ctx) load(st *State, prefix string, t types.Type, ref, idx Term) Val {
 			} else {
 				st.assume(c, app(SBool, "<=", Term{"0", SInt}, v))
 			}
+			c.noteUnsigned(v, t)
 		}
 		return Scalar{v, t}
 	case *types.Pointer:
